@@ -7,15 +7,11 @@
 //! equal shape, dtype and values (ints exact, floats within tolerance,
 //! identical NaN positions).
 
-use serde::{Deserialize, Serialize};
 use vc_onnxgen::grammar::*;
 use vc_onnxgen::*;
 use vcore::{Check, Verdict};
 
-#[derive(Clone, Debug, Serialize, Deserialize)]
-struct Case {
-    raw: RawGraph,
-}
+type Case = GraphCase;
 
 /// Float tolerance: fused kernels legitimately re-order float operations
 /// (e.g. MatMul+Add, LayerNorm variants); the defects of interest change
@@ -48,7 +44,7 @@ fn err_class(e: &str) -> String {
 }
 
 fn oracle(profile: &Profile, c: &Case) -> Verdict {
-    let built = build(&c.raw, profile);
+    let built = c.build(profile);
     let bytes = built.model.encode();
     let base_model = match vcore::catch(|| Config::Plain.load(&bytes)) {
         Ok(Ok(m)) => m,
@@ -164,9 +160,9 @@ fn main() {
     ck.set_threads(12);
     let profile = Profile::general();
     let n = ck.pick(3000, 120_000);
-    ck.prop("grammar-general", n, || raw_graph(3, 14).prop_map(|raw| Case { raw }), |c| oracle(&profile, c));
+    ck.prop_export("grammar-general", n, || raw_graph(3, 14).prop_map(GraphCase::Raw), |c| oracle(&profile, c), |c| c.export(&profile));
     let profile2 = Profile::inplace_biased();
-    ck.prop("grammar-elementwise", n / 2, || raw_graph(3, 10).prop_map(|raw| Case { raw }), |c| oracle(&profile2, c));
+    ck.prop_export("grammar-elementwise", n / 2, || raw_graph(3, 10).prop_map(GraphCase::Raw), |c| oracle(&profile2, c), |c| c.export(&profile2));
     ck.finish();
 }
 
